@@ -331,6 +331,11 @@ class Interp:
                     continue
                 base, idx = r.value
                 v = TOP
+                hookm = getattr(d, "subscript_multi", None)
+                hm = hookm(base, idx, r.state, fr) if hookm is not None else None
+                if hm is not None:
+                    out.extend(hm)
+                    continue
                 hook = getattr(d, "subscript", None)
                 hv = hook(base, idx, r.state, fr) if hook is not None else None
                 if hv is not None:
